@@ -404,6 +404,13 @@ func (s *Module) defineSyncStage() error {
 
 	if s.syncStage == headersSynced|blocksSynced|mptSynced {
 		s.log.Info("state is in sync, starting regular blocks processing")
+		if s.bc.BlockHeight() < s.syncPoint {
+			// Everything is in the DB, but the node died before the state jump
+			// was started (an interrupted jump is resumed by Blockchain itself).
+			if err := s.jumpCallback(s.syncPoint); err != nil {
+				return fmt.Errorf("failed to jump to the latest state sync point: %w", err)
+			}
+		}
 		s.syncStage = inactive
 	}
 	return nil
